@@ -177,6 +177,31 @@ def _check_world(w, r, violations, keys, tag, use_cache=False, create_cache=None
                         "group": grp, "rpc": r, "shape": [n, p], "block": repr(ix),
                         "got_shape": list(np.shape(vals_b))}))
                     break
+            else:
+                # a tile (offset column window), then the same lines at full width, then the whole
+                # image again - all through the same variable: what an earlier read leaves behind
+                # must not shift what a later one returns
+                if p >= 2:
+                    c0 = max(p // 3, 1)
+                    c1 = max(c0 + 1, (2 * p) // 3)
+                    r0 = n // 3
+                    r1 = max(r0 + 1, (2 * n + 2) // 3)
+                    for ix in ((slice(r0, r1), slice(c0, c1)), (slice(r0, r1), slice(None)),
+                               (slice(None), slice(None))):
+                        try:
+                            got = da[ix].values
+                        except Exception as e:  # noqa: BLE001
+                            violations.append(Violation(ID, "load-raised", "tile-tour:" + type(e).__name__,
+                                                        {"group": grp, "error": exc_text(e), "rpc": r,
+                                                         "shape": [n, p], "block": repr(ix)}))
+                            break
+                        want = truth[ix]
+                        bits = bits_of(got, prod.level)
+                        if bits is None or bits.shape != want.shape or (bits != want).any():
+                            violations.append(Violation(ID, "pixel-mismatch", tag + "tile-tour:" + prod.level, {
+                                "group": grp, "rpc": r, "shape": [n, p], "block": repr(ix),
+                                "got_shape": list(np.shape(got))}))
+                            break
 
 
 def shrink(plan):
